@@ -36,7 +36,7 @@ OPS = {
 def harnesses(tier, seed):
     p = _params(tier)
     bound = "size <= %d cells, pointer within %d cells of the buffer, offsets within +-%d" % (p["K"], p["K2"], p["R"])
-    t = 300 if tier == "quick" else 1500
+    t = 600 if tier == "quick" else 1500
     widths = (8, 64) if tier == "quick" else (8, 16, 32, 64)
     hs = []
     for op, (fn, clause, props, alloc) in OPS.items():
